@@ -585,6 +585,26 @@ def oracle_module_get(rep, kind, source, q, txt, raw, qi):
             rep.violate(what, f"date lies in the interval of entry {hits} but nothing was returned", qi)
         elif got_tag not in hits:
             rep.violate(f"lookup:{key}", f"entry {got_tag} was returned, the date lies in the interval of {hits}", qi)
+        if got is not None and kind == "snx" and mod == "site_coord":
+            oracle_params(rep, st, got, qi)
+
+
+def oracle_params(rep, st, got, qi):
+    """a SINEX coordinate entry carries the estimates of its own solution number: for every parameter the last
+    SOLUTION/ESTIMATE record of the station with that solution number and parameter name, wherever in the block it stands"""
+    tag = got._info["_tag"]
+    soln = next((r[0] for r in (st["epochs"] or []) if r[3] == tag), None)
+    if soln is None:
+        return
+    want = {}
+    for sn, p_, t in st["est"] or []:
+        if sn == soln:
+            want[p_] = t
+    have = {PNAMES.index(k): v["_tag"] for k, v in got._info.items() if k in PNAMES and isinstance(v, dict)}
+    if have != want:
+        rep.violate("site_coord:parameters-of-the-solution",
+                    f"the entry of solution {soln} carries the estimates {have} (parameter index -> record), the SOLUTION/ESTIMATE "
+                    f"records of that solution are {want}", qi)
 
 
 class Reporter:
